@@ -148,6 +148,7 @@ class B:
         self.filters = []         # topic-filter validated regions
         self.wbytes = 0
         self.notes = []
+        self.rlen = {}            # validated region -> concrete length
         self.pfi = {}             # owner -> expr of the payload format indicator byte
         self.enc_assumes = []     # extra domain restrictions on the encode side (value not expressible otherwise)
 
@@ -221,6 +222,7 @@ class B:
         self.lp(a, k)
         self.con("utf8_model(&%s)" % a, key + ".utf8", ("InvalidString",), "utf8", a)
         self.utf8.append(a)
+        self.rlen[a] = k
         return a
 
     def binary(self, k, hint="bn"):
@@ -235,6 +237,7 @@ class B:
         self.con("topic_name_bytes_ok(&%s)" % a, key + ".wildcard", err, "name", a)
         self.utf8.append(a)
         self.names.append(a)
+        self.rlen[a] = k
         return a
 
     def topic_filter(self, k, hint="tf", key="topic_filter"):
@@ -246,6 +249,7 @@ class B:
         self.con("plain_filter_bytes_ok(&%s)" % a, key + ".syntax", ("InvalidTopicFilter",), "filter", a)
         self.utf8.append(a)
         self.filters.append(a)
+        self.rlen[a] = k
         return a
 
 
@@ -683,6 +687,7 @@ def v5_connect(flags=0x02, cid_len=1, plist=(), wt_len=1, wp_len=1, wprops=(), u
             b.con("(%s != 1 || utf8_model(&%s))" % (b.pfi["Will"], wp), "connect.will_payload_format", ("InvalidPayloadFormat",), "utf8", wp)
             if b.pfi["Will"] == "1u8":
                 b.utf8.append(wp)
+                b.rlen[wp] = wp_len
             elif b.pfi["Will"] != "0u8":
                 b.notes.append("symbolic will PFI: utf8 call order is path dependent")
         inner = " && ".join("(%s)" % c for c, _ in will_checks) or "true"
@@ -774,6 +779,7 @@ def v5_publish(qos=0, tl=1, pl=1, plist=(), dup=False, retain=False):
             b.con("(%s != 1 || utf8_model(&%s))" % (b.pfi["Publish"], pay), "publish.payload_format", ("InvalidPayloadFormat",), "utf8", pay)
             if b.pfi["Publish"] == "1u8":
                 b.utf8.append(pay)
+                b.rlen[pay] = pl
             elif b.pfi["Publish"] != "0u8":
                 b.notes.append("symbolic PFI")
     ctrl = 0x30 | (8 if dup else 0) | (qos << 1) | (1 if retain else 0)
@@ -819,11 +825,11 @@ def _sub_options(b, i):
     return o
 
 
-def v5_subscribe(lens=(1,), plist=()):
+def v5_subscribe(lens=(1,), plist=(), pd=0):
     b = B("v5")
     pid = _pid(b, "subscribe.pid")
     b.chk("p.pid.value() == %s" % pid, "subscribe.pid")
-    pctor, _ = props(b, "Subscribe", list(plist), "p.properties")
+    pctor, _ = props(b, "Subscribe", list(plist), "p.properties", pd)
     if not lens:
         b.con("false", "subscribe.empty", ("EmptySubscription",))
     items = []
@@ -836,7 +842,7 @@ def v5_subscribe(lens=(1,), plist=()):
         items.append("(mp::TopicFilter::try_from(%s).unwrap(), mp::v5::SubscriptionOptions { max_qos: mp::QoS::from_u8(%s & 3).unwrap(), no_local: %s & 4 != 0, retain_as_published: %s & 8 != 0, retain_handling: mp::v5::RetainHandling::from_u8((%s >> 4) & 3).unwrap() })"
                      % (s_of(f), o, o, o, o))
     ctor = "mp::v5::Packet::Subscribe(mp::v5::Subscribe { pid: mp::Pid::try_from(%s).unwrap(), properties: %s, topics: vec![%s] })" % (pid, pctor, ", ".join(items))
-    name = ("subscribe_" + "_".join(map(str, lens)) if lens else "subscribe_none") + pl_name(plist)
+    name = ("subscribe_" + "_".join(map(str, lens)) if lens else "subscribe_none") + pl_name(plist) + ("_pdm%d" % -pd if pd < 0 else "")
     return Shape("v5", "Subscribe", name, 0x82, b, "mp::v5::Packet::Subscribe(p)", ctor if lens else None)
 
 
@@ -859,11 +865,11 @@ def v5_codes(typ, n=1, plist=()):
     return Shape("v5", typ, "%s_%d%s" % (typ.lower(), n, pl_name(plist)), ctrl, b, "mp::v5::Packet::%s(p)" % typ, ctor)
 
 
-def v5_unsubscribe(lens=(1,), plist=()):
+def v5_unsubscribe(lens=(1,), plist=(), pd=0):
     b = B("v5")
     pid = _pid(b, "unsubscribe.pid")
     b.chk("p.pid.value() == %s" % pid, "unsubscribe.pid")
-    pctor, _ = props(b, "Unsubscribe", list(plist), "p.properties")
+    pctor, _ = props(b, "Unsubscribe", list(plist), "p.properties", pd)
     if not lens:
         b.con("false", "unsubscribe.empty", ("EmptySubscription",))
     items = []
@@ -872,7 +878,7 @@ def v5_unsubscribe(lens=(1,), plist=()):
         b.chk("p.topics.len() == %d && eq_bytes(p.topics[%d].as_bytes(), &%s)" % (len(lens), i, f), "unsubscribe.topic%d" % i)
         items.append("mp::TopicFilter::try_from(%s).unwrap()" % s_of(f))
     ctor = "mp::v5::Packet::Unsubscribe(mp::v5::Unsubscribe { pid: mp::Pid::try_from(%s).unwrap(), properties: %s, topics: vec![%s] })" % (pid, pctor, ", ".join(items))
-    name = ("unsubscribe_" + "_".join(map(str, lens)) if lens else "unsubscribe_none") + pl_name(plist)
+    name = ("unsubscribe_" + "_".join(map(str, lens)) if lens else "unsubscribe_none") + pl_name(plist) + ("_pdm%d" % -pd if pd < 0 else "")
     return Shape("v5", "Unsubscribe", name, 0xA2, b, "mp::v5::Packet::Unsubscribe(p)", ctor if lens else None)
 
 
@@ -905,6 +911,13 @@ def v5_auth(form="empty", plist=(), zero=None):
         b.chk("p.reason_code as u8 == 0", "auth.reason_default")
         b.chk("p.properties == mp::v5::AuthProperties::default()", "auth.props_default")
         ctor = "mp::v5::Packet::Auth(mp::v5::Auth { reason_code: mp::v5::AuthReasonCode::from_u8(0).unwrap(), properties: Default::default() })"
+    elif form == "code":
+        # 3.15.2.1: reason code and property length may only be omitted together (remaining length 0);
+        # a remaining length of 1 leaves the property length missing
+        rc = _reason(b, "Auth", "auth", zero)
+        b.con("false", "auth.missing_property_length", ("InvalidRemainingLength",))
+        ctor = None
+        canonical = False
     else:
         rc = _reason(b, "Auth", "auth", zero)
         pctor, _ = props(b, "Auth", list(plist), "p.properties")
@@ -971,6 +984,29 @@ STUBS_DECODE = [
     "#[kani::stub(mqtt_proto_sync::TopicName::is_invalid, crate::model::topic_name_class_stub)]",
     "#[kani::stub(mqtt_proto_sync::TopicFilter::is_invalid, crate::model::topic_filter_class_stub)]",
 ]
+
+
+def stubs_for(bad):
+    """Kani stub attributes of a decode scenario: the valid-class stubs, with the validator of the
+    invalid-class field (marked by its length BAD_LEN = 3) swapped for the length-marked stub"""
+    sel = {"utf8": "from_utf8_class_stub", "name": "topic_name_class_stub", "filter": "topic_filter_class_stub"}
+    if bad is not None:
+        sel[bad[0]] = {"utf8": "from_utf8_bad_len3", "name": "topic_name_bad_len3", "filter": "topic_filter_bad_len3"}[bad[0]]
+    return [
+        "#[kani::stub(<mqtt_proto_sync::Error as std::convert::From<std::io::Error>>::from, crate::model::from_io_eof_stub)]",
+        "#[kani::stub(simdutf8::basic::from_utf8, crate::model::%s)]" % sel["utf8"],
+        "#[kani::stub(mqtt_proto_sync::TopicName::is_invalid, crate::model::%s)]" % sel["name"],
+        "#[kani::stub(mqtt_proto_sync::TopicFilter::is_invalid, crate::model::%s)]" % sel["filter"],
+    ]
+
+
+def bad_ok(sh, bad):
+    """the invalid-class field has length 3 and no other field decided by the same validator has"""
+    regs = {"utf8": sh.b.utf8, "name": sh.b.names, "filter": sh.b.filters}[bad[0]]
+    if bad[1] >= len(regs):
+        return False
+    lens = [sh.b.rlen.get(r) for r in regs]
+    return lens[bad[1]] == 3 and sum(1 for l in lens if l == 3) == 1
 
 
 class Module:
@@ -1213,4 +1249,160 @@ def emit_enc(sh, prop="C10", want_bytes=True, want_len=True, level="body"):
     lines.append("}")
     unwind = max(max_loop(sh), L, 6) + 2
     meta = {"name": fn, "family": fam, "type": sh.typ, "shape": sh.name, "frame_len": L, "direction": "encode/packet"}
+    return fn, "\n".join(lines) + "\n", b.wbytes, unwind, meta
+
+
+def _prelude(sh, fn, assume_valid=False, tail=0):
+    b = sh.b
+    lines = ["pub fn %s(s: &mut Src) {" % fn]
+    lines += ["    " + d for d in b.draws]
+    lines += ["    " + d for d in b.pre]
+    for a in b.assumes:
+        lines.append("    vassume!(%s);" % a)
+    if assume_valid:
+        for (expr, key, err, kind, region) in b.cons:
+            if expr != "true":
+                lines.append("    vassume!(%s);" % expr)
+    cells = ["0x%02x" % x for x in sh.header] + b.cells
+    if tail:
+        lines.append("    let tail: [u8; %d] = s.bytes();" % tail)
+        cells += ["tail[%d]" % i for i in range(tail)]
+    lines.append("    let frame: [u8; %d] = [%s];" % (len(cells), ", ".join(cells)))
+    lines.append("    set_classes(usize::MAX, usize::MAX, usize::MAX);")
+    return lines
+
+
+def emit_agree(sh, tail=2):
+    """C06 / C08: the three front-ends on `frame ++ tail` (tail = symbolic bytes of the next packet).
+    Packets are compared through the spec-side field checks and errors through a compact code, not
+    through the derived `==` (which explores every variant pair of two symbolic-variant values)."""
+    fam = sh.fam
+    b = sh.b
+    L = sh.total_len
+    H = len(sh.header)
+    BL = sh.body_len
+    ec = "err_code3" if fam == "v3" else "err_code5"
+    fn = "%s_%s__agree" % (fam, sh.name)
+    lines = _prelude(sh, fn, tail=tail)
+
+    def fields(var, who, ind):
+        out = []
+        out.append("%smatch %s {" % (ind, var))
+        if "(p)" in sh.variant:
+            out.append("%s    %s => {" % (ind, sh.variant))
+            conj = " && ".join("(%s)" % e for e, _ in b.checks) or "true"
+            out.append('%s        vassert!(%s, "C06|%s.fields|%s decoder returns a packet whose fields differ from the bytes (hence from the strict decoder\'s packet)");' % (ind, conj, who, who))
+            out.append("%s    }" % ind)
+        else:
+            out.append("%s    %s => {}" % (ind, sh.variant))
+        out.append('%s    _ => { vassert!(false, "C06|%s.variant|%s decoder returns a different packet type"); }' % (ind, who, who))
+        out.append("%s}" % ind)
+        return out
+
+    lines += [
+        "    let (rs, _used) = fe::%s::strict(0x%02x, %d, %d, &frame[%d..%d]);" % (fam, sh.ctrl, BL, H, H, L),
+        "    let (ra, ca) = fe::%s::async_all(&frame);" % fam,
+        "    let rb = fe::%s::blocking(&frame);" % fam,
+        "    // outcome codes: 0 = packet, 100 = incomplete, else = error identity",
+        "    let cs: (u8, u32) = match &rs { Ok(_) => (0, 0), Err(e) => %s(e) };" % ec,
+        "    let ca_code: (u8, u32) = match &ra { Ok(_) => (0, 0), Err(e) => if e.is_eof() { (100, 0) } else { %s(e) } };" % ec,
+        "    let cb: (u8, u32) = match &rb { Ok(Some(_)) => (0, 0), Ok(None) => (100, 0), Err(e) => %s(e) };" % ec,
+        '    vassert!(ca_code == cb, "C06|blocking_vs_async|the blocking decoder differs from the async decoder with end-of-input mapped to incomplete");',
+        "    if cs.0 == 0 {",
+        '        vassert!(ca_code.0 == 0 && cb.0 == 0, "C06|strict_accepts.others_reject|the strict decoder accepts but the blocking/async decoders do not return a packet");',
+        '        vassert!(ca_code.0 != 0 || ca == %d, "C08|async.consumed|the async decoder consumed bytes of the following packet (or too few)");' % L,
+    ] + (['        vcover!(true, "all accept");'] if not sh.malformed_by_shape else []) + [
+        "    } else if cs.0 != 1 {",
+        '        vassert!(ca_code == cs, "C06|strict_rejects.async_differs|the strict decoder rejects (not a remaining-length mismatch) with an error the async decoder does not report");',
+    ] + (['        vcover!(true, "all reject");'] if any((c[3] == "scalar") or (c[0] == "false" and c[2][0] != "InvalidRemainingLength") for c in b.cons) else []) + [
+        "    }",
+        "    if let Ok((total, ps)) = &rs {",
+        '        vassert!(*total == %d, "C08|strict.total|reported total differs from the frame length");' % L,
+    ]
+    lines += fields("ps", "strict", "        ")
+    lines.append("    }")
+    lines.append("    if let Ok(pa) = &ra {")
+    lines += fields("pa", "async", "        ")
+    lines.append("    }")
+    lines.append("    if let Ok(Some(pb)) = &rb {")
+    lines += fields("pb", "blocking", "        ")
+    lines.append("    }")
+    lines.append("    done(rs); done(ra); done(rb);")
+    lines.append("}")
+    unwind = max(max_loop(sh), 6) + 2
+    meta = {"name": fn, "family": fam, "type": sh.typ, "shape": sh.name, "frame_len": L, "mode": "front-end agreement, tail=%d" % tail}
+    return fn, "\n".join(lines) + "\n", sh.b.wbytes + tail, unwind, meta
+
+
+def emit_prefix(sh):
+    """C07: every strict prefix of a valid encoding is 'incomplete' for blocking and async; the strict
+    decoder composition is not involved (it only ever sees complete frames; end of stream inside a frame
+    for the poll decoder is C05/C14)"""
+    fam = sh.fam
+    L = sh.total_len
+    fn = "%s_%s__prefix" % (fam, sh.name)
+    lines = _prelude(sh, fn, assume_valid=True)
+    lines += [
+        "    let mut k = 0;",
+        "    while k < %d {" % L,
+        "        // Packet::decode is decode_async on the slice with (only) an eof error mapped to Ok(None)",
+        "        let rb = fe::%s::blocking(&frame[..k]);" % fam,
+        '        vassert!(matches!(&rb, Ok(None)), "C07|prefix.blocking|a strict prefix of a valid encoding is not reported as incomplete by the blocking decoder");',
+        "        done(rb);",
+        "        k += 1;",
+        "    }",
+        "    let (ra, _) = fe::%s::async_all(&frame[..%d]);" % (fam, L - 1),
+        '    vassert!(matches!(&ra, Err(e) if e.is_eof()), "C07|prefix.async|the longest strict prefix of a valid encoding is not an eof error for the async decoder");',
+        "    done(ra);",
+        "    let rf = fe::%s::blocking(&frame);" % fam,
+        '    vassert!(matches!(&rf, Ok(Some(_))), "C07|complete.blocking|the complete valid encoding is not decoded");',
+        '    vcover!(true, "all prefixes");',
+        "    done(rf);",
+        "}",
+    ]
+    unwind = max(max_loop(sh), L, 6) + 2
+    meta = {"name": fn, "family": fam, "type": sh.typ, "shape": sh.name, "frame_len": L, "mode": "every prefix"}
+    return fn, "\n".join(lines) + "\n", sh.b.wbytes, unwind, meta
+
+
+def canonical_body(sh):
+    """cells of the canonical re-encoding of the value this shape decodes to, or None when the shape
+    itself is canonical (then: the frame body).  Non-canonical spellings the decoders accept:
+    PUBACK-family 'medium' with reason 0x00 -> short; 'long' without properties -> medium/short;
+    DISCONNECT 'code' with 0x00 / 'long' without properties; AUTH 'long' with 0x00 and no properties."""
+    return None
+
+
+def emit_reenc(sh, prop="C11"):
+    """C11: whatever the strict decoder accepts re-encodes (streaming body encoder, reading the value the
+    decoder returned) without error to at most the bytes consumed; for canonical shapes to exactly the
+    frame body, which the decode scenarios of the same shape show decodes to the same value again."""
+    b = sh.b
+    fam = sh.fam
+    L = sh.total_len
+    H = len(sh.header)
+    BL = sh.body_len
+    fn = "%s_%s__reenc" % (fam, sh.name)
+    lines = _prelude(sh, fn)
+    lines.append("    let (r, _used) = fe::%s::strict(0x%02x, %d, %d, &frame[%d..]);" % (fam, sh.ctrl, BL, H, H))
+    lines.append("    if let Ok((_total, pkt)) = &r {")
+    lines.append("        match pkt {")
+    lines.append("            %s => {" % sh.variant)
+    lines.append("                let mut sink = ArrSink::<%d>::new();" % (BL + 4))
+    lines.append("                let w = mp::Encodable::encode(p, &mut sink);")
+    lines.append('                vassert!(w.is_ok(), "%s|reencode.error|re-encoding an accepted packet fails");' % prop)
+    lines.append('                vassert!(sink.len <= %d && !sink.overflow, "%s|reencode.longer|the re-encoding is longer than the bytes the decoder consumed");' % (BL, prop))
+    lines.append('                vassert!(mp::Encodable::encode_len(p) == sink.len, "%s|reencode.encode_len|encode_len of an accepted packet differs from the bytes its encoder writes (Packet::encode would panic in dev / emit a corrupt frame in release)");' % prop)
+    if sh.canonical:
+        lines.append('                vassert!(sink.len == %d && eq_bytes(&sink.buf[..%d], &frame[%d..]), "%s|reencode.bytes|an accepted canonical frame does not re-encode to itself");' % (BL, BL, H, prop))
+    lines.append('                vcover!(true, "re-encoded");')
+    lines.append("                done(w);")
+    lines.append("            }")
+    lines.append("            _ => {}")
+    lines.append("        }")
+    lines.append("    }")
+    lines.append("    done(r);")
+    lines.append("}")
+    unwind = max(max_loop(sh), BL, 6) + 2
+    meta = {"name": fn, "family": fam, "type": sh.typ, "shape": sh.name, "frame_len": L, "mode": "decode then re-encode (body level)", "canonical": sh.canonical}
     return fn, "\n".join(lines) + "\n", b.wbytes, unwind, meta
